@@ -5,3 +5,5 @@
 pub mod common;
 #[cfg(kani)]
 mod h_newtypes;
+#[cfg(kani)]
+mod h_pairs;
